@@ -86,6 +86,15 @@ func faultValue(name string) interface{} {
 		return []interface{}{nil}
 	case "textlist":
 		return []interface{}{"x"}
+	case "dupheads": // the genuine head listed twice
+		c12Init()
+		return []interface{}{link42(c12Head), link42(c12Head)}
+	case "dupheads3": // ... and with its predecessor in between (never a base block's own identifier: an entry cannot name itself)
+		c12Init()
+		return []interface{}{link42(c12Head), link42(c12Mid), link42(c12Head)}
+	case "headsplus": // the genuine head and its predecessor
+		c12Init()
+		return []interface{}{link42(c12Head), link42(c12Mid)}
 	case "b64":
 		return "AAAA"
 	case "b64n24": // base64 of exactly 24 bytes (a well-sized secretbox nonce)
@@ -113,7 +122,7 @@ func faultNames() []string {
 		n = append(n, f.name)
 	}
 	return append(n, "link", "badlink", "emptylink", "linklist", "badlinklist", "nulllist", "textlist", "b64", "b64n24", "b64n23", "b64n25", "b64long", "b64empty",
-		"cut0", "cut1", "cut2", "cut3", "cutlast", "grow1")
+		"cut0", "cut1", "cut2", "cut3", "cutlast", "grow1", "dupheads", "dupheads3", "headsplus")
 }
 
 // genericEntry mirrors the CBOR schema of a v2 entry as a generic value tree.
@@ -148,6 +157,10 @@ type c12Base struct {
 var c12Bases []c12Base
 var c12Manifest c12Base
 
+// c12Blocks: every block written while the bases were built (the manifest's log among them); c12Head: its head
+var c12Blocks *store.Store
+var c12Head, c12Mid cid.Cid
+
 func c12Init() {
 	if c12Bases != nil {
 		return
@@ -170,6 +183,11 @@ func c12Init() {
 	mk("plain", entrySpec{Payload: []byte("hello"), Time: 1, Writer: 0, LogID: "X", Next: []int{}, Refs: []int{}})
 	mk("linked", entrySpec{Payload: []byte("p\x00q"), Time: 7, Writer: 1, LogID: "X", Next: []int{0, 3}, Refs: []int{1}})
 	l := world.NewLog(st, 0, nil)
+	m0, err := l.Append(world.Ctx, []byte("m0"), nil)
+	if err != nil {
+		panic(err)
+	}
+	c12Mid = m0.GetHash()
 	l.Append(world.Ctx, []byte("m1"), nil)
 	mc, err := l.ToMultihash(world.Ctx)
 	if err != nil {
@@ -185,6 +203,8 @@ func c12Init() {
 		panic("c12: manifest model does not re-encode")
 	}
 	c12Manifest = c12Base{"manifest", tree, raw, mc}
+	c12Blocks = st
+	c12Head = l.ToJSONLog().Heads[0]
 }
 
 func baseByName(n string) c12Base {
@@ -433,7 +453,13 @@ func manifestDecode(p *run.Part, cc c12Case, c cid.Cid, raw []byte) {
 	}
 	if err == nil && jl != nil {
 		// loading through the manifest must be safe as well
+		// the store holds the blocks the genuine manifest leads to: heads that exist are really loaded
 		st := store.New()
+		for _, bc := range c12Blocks.Adds {
+			if b, ok := c12Blocks.Raw(bc); ok {
+				st.PutRaw(bc, b)
+			}
+		}
 		st.PutRaw(c, raw)
 		pv, stack = run.Safe(func() {
 			l, lerr := ipfslog.NewFromMultihash(world.Ctx, st, world.IDs[0], c, &ipfslog.LogOptions{}, &ipfslog.FetchOptions{})
